@@ -88,6 +88,40 @@ static bool check_value(const char* tname, typename D::rep v, int zi, int ndig, 
   const std::string gn = cctz::format(f, tp, tz);
   const std::string en = frac_digits(fs, ndig) + "|" + ss + (ndig ? "." + frac_digits(fs, ndig) : "");
   REQ(gn == en, ctx + "format(" + f + ") = '" + gn + "' expected '" + en + "'");
+  // several fractional fields in one format string, with library-rendered whole fields between them: every field is
+  // rendered from the same instant, whatever was rendered before it
+  {
+    char two[8];
+    const uint64_t hsh = vf::mix((uint64_t)((i128)v ^ ((i128)v >> 64)), (uint64_t)ndig * 131 + zi);
+    const int nd2 = (int)(hsh % 19), nd3 = (int)((hsh >> 8) % 19);
+    auto whole_field = [&](int k, std::string* fmt, std::string* expd) {
+      switch (k % 7) {
+        case 0: *fmt += "%Y"; *expd += vf::i128_str(exp.y); break;
+        case 1: *fmt += "%m"; snprintf(two, sizeof two, "%02d", exp.m); *expd += two; break;
+        case 2: *fmt += "%d"; snprintf(two, sizeof two, "%02d", exp.d); *expd += two; break;
+        case 3: *fmt += "%H"; snprintf(two, sizeof two, "%02d", exp.hh); *expd += two; break;
+        case 4: *fmt += "%M"; snprintf(two, sizeof two, "%02d", exp.mm); *expd += two; break;
+        case 5: *fmt += "%S"; snprintf(two, sizeof two, "%02d", exp.ss); *expd += two; break;
+        default: *fmt += "%s"; *expd += vf::i128_str(S); break;
+      }
+    };
+    auto frac_field = [&](int kind, int n, std::string* fmt, std::string* expd) {
+      switch (kind % 4) {
+        case 0: *fmt += "%E" + std::to_string(n) + "f"; *expd += frac_digits(fs, n); break;
+        case 1: *fmt += "%E*f"; *expd += frac_star(fs); break;
+        case 2: *fmt += "%E" + std::to_string(n) + "S"; *expd += std::string(ss) + (n ? "." + frac_digits(fs, n) : std::string()); break;
+        default: *fmt += "%E*S"; *expd += std::string(ss) + (fs ? "." + frac_star(fs) : std::string()); break;
+      }
+    };
+    std::string mf, me;
+    frac_field((int)(hsh >> 16), ndig, &mf, &me); mf += " "; me += " ";
+    whole_field((int)(hsh >> 20), &mf, &me); mf += " "; me += " ";
+    frac_field((int)(hsh >> 24), nd2, &mf, &me); mf += " "; me += " ";
+    whole_field((int)(hsh >> 28), &mf, &me); mf += "|"; me += "|";
+    frac_field((int)(hsh >> 32), nd3, &mf, &me);
+    const std::string mg = cctz::format(mf, tp, tz);
+    REQ(mg == me, ctx + "format(" + mf + ") = '" + mg + "' expected '" + me + "'");
+  }
   return true;
 }
 
@@ -281,6 +315,7 @@ static void run_parse(const char* tname, const vf::Args& a, int stream) {
 }
 
 static void run(const vf::Args& a, vf::Evidence& ev, vf::Reporter& rep) {
+  vf::History::enabled() = true;  // failing cases carry the cases that ran just before them (state between calls)
   EV = &ev; REP = &rep;
   ev.rule = "rapidcheck per duration type (int64 ns/us/ms/s, int32 min/h, int8/int16 s/min, 1/3-second, femtosecond): "
             "rep values around zero, k*ticks-per-second+-2, representation limits, +-2^k, uniform; x 4 zones x 0..18 "
